@@ -1040,6 +1040,13 @@ META_CMDS = [
     {"c": "upsert", "node": 2, "addr": "10.0.0.9:6002"}, {"c": "upsert", "node": 1, "addr": "10.0.0.7:6001"},
     {"c": "upsert", "node": 2, "addr": "10.0.0.2:6002"},
 ]
+# a pool in which most commands overwrite what an earlier one wrote (half of the cases draw from it)
+OVERWRITE_CMDS = [
+    {"c": "upsert", "node": 1, "addr": "10.0.0.1:6001"}, {"c": "upsert", "node": 2, "addr": "10.0.0.2:6002"},
+    {"c": "upsert", "node": 2, "addr": "10.0.0.9:6002"}, {"c": "upsert", "node": 1, "addr": "10.0.0.7:6001"},
+    {"c": "create", "name": "t1", "leader": 1}, {"c": "rollover", "name": "t1", "leader": 2, "count": 3},
+    {"c": "upsert", "node": 2, "addr": "10.0.0.2:6002"}, {"c": "rollover", "name": "t1", "leader": 1, "count": 5},
+]
 KV_CMDS = [{"c": "set", "key": "a", "val": "1"}, {"c": "set", "key": "b", "val": "2"}, {"c": "delete", "key": "a"},
            {"c": "set", "key": "a", "val": "3"}, {"c": "get", "key": "b"}]
 
@@ -1048,6 +1055,7 @@ def sm_case_from_hist(cid, hist, app, rng):
     """TLC history of MC_RaftSM -> harness case. Command ids become concrete commands (a rollover is
     only used after its topic was created, so every command succeeds, as in the model)."""
     entries, ops, created = [], [], set()
+    pool = OVERWRITE_CMDS if rng.random() < 0.5 else META_CMDS
     for o in hist:
         if o["op"] == "commit":
             e = o["e"]
@@ -1055,7 +1063,7 @@ def sm_case_from_hist(cid, hist, app, rng):
                 if app == "kv":
                     cmd = KV_CMDS[(e["c"] - 1) % len(KV_CMDS)]
                 else:
-                    cands = [c for c in META_CMDS if c["c"] != "rollover" or c["name"] in created]
+                    cands = [c for c in pool if c["c"] != "rollover" or c["name"] in created]
                     cmd = cands[(e["c"] * 3 + rng.randint(0, 2)) % len(cands)]
                     if cmd["c"] == "create":
                         created.add(cmd["name"])
@@ -1081,6 +1089,7 @@ def sm_case_from_hist(cid, hist, app, rng):
 
 def sm_random_case(cid, rng, app):
     n = rng.randint(1, 7)
+    rpool = OVERWRITE_CMDS if rng.random() < 0.5 else META_CMDS
     entries, created = [], set()
     for _ in range(n):
         r = rng.random()
@@ -1091,7 +1100,7 @@ def sm_random_case(cid, rng, app):
         elif app == "kv":
             entries.append({"k": "normal", "cmd": rng.choice(KV_CMDS)})
         else:
-            cands = [c for c in META_CMDS if c["c"] != "rollover" or c["name"] in created]
+            cands = [c for c in rpool if c["c"] != "rollover" or c["name"] in created]
             cmd = dict(rng.choice(cands))
             if cmd["c"] == "rollover":
                 cmd["count"] = rng.choice([0, 1, 5, 1000])
